@@ -559,7 +559,9 @@ def build(unit_path, repo=None, extra_tail='', twins_only=False):
                 g.watched['%s :: %s' % (wsrc, wpath)] = {'sha': sha(' '.join(names)), 'tags': wtags, 'methods': names}
                 continue
             witem = sources[wsrc].find(wpath)
-            g.watched['%s :: %s' % (wsrc, wpath)] = {'sha': sha(witem.text), 'tags': wtags}
+            # token-level hash: comments, blank lines and re-wrapping do not count as a change
+            from lexer import lex as _lex
+            g.watched['%s :: %s' % (wsrc, wpath)] = {'sha': sha(' '.join(t.text for t in _lex(witem.text))), 'tags': wtags}
         except Undecided:
             g.watched['%s :: %s' % (wsrc, wpath)] = {'sha': 'MISSING', 'tags': wtags}
     g.has_strict = any((not isinstance(x, tuple)) and any(getattr(c, 'strict', False) for c in x.clauses) and not getattr(x, 'included_from', None) for x in u.items)
